@@ -141,6 +141,38 @@ def check_C04(A, R, tier):
             R.ob("R4.1", "%s | a job taken out of the graph at startup is marked finished without failure" % short(rm["fn"]),
                  bool(ws) and tos <= (C["Finished"] - C["FailedLike"]), detail="states written: %s" % A.snames(tos), site=A.site(rm))
     R.floor("R4.1", "removals of jobs from the graph at startup", n, 1)
+    # ... and where the pruning is not of the plainly complete form (rescan the whole candidate set until nothing is removed; instead:
+    # a worklist fed by the neighbours of what was removed), the run-time decision must not rely on it: an invalidated Ephemeral all
+    # of whose consumers are Ephemerals is not offered
+    worklist_form = False
+    for st_ in A.startup_runs()[:1]:
+        for rm in st_.by_kind("dag_remove_node"):
+            if any(isinstance(r_, tuple) and r_[0] == "nbr" for r_ in _flat(rm["key"][1])):
+                worklist_form = True
+    R.info["pruning_form"] = "worklist" if worklist_form else "rescan until stable"
+    if worklist_form:
+        from interp import Interp, Config
+        from rules_more import gate_functions
+        gates_ = gate_functions(A)
+        good_ = [n_ for n_, g_ in gates_.items() if g_["passing"] <= C["Finished"]]
+        eph_states = frozenset(x for x in reach if A.kind_of(x) in cleanup_kinds)
+        for cb_ in [A.facts.body(n_) for n_ in sorted(consider_entry_fns(A, sk))]:
+            for s_ in sorted(inv):
+                if A.kind_of(s_) not in cleanup_kinds:
+                    continue
+                cfg = Config(label="C04P", cell_init={"param": fin(A.L.jobstate, [s_])})
+                cfg.default_states = fin(A.L.jobstate, eph_states)
+                cfg.nonempty_nbrs = True
+                I_ = Interp(A.facts, A.uni, A.layout, cfg)
+                I_.models = dict(I_.models)
+                for g_ in good_:
+                    I_.models[g_] = (lambda I2, st2, fr2, bi2, t2, a2, sp2: [(TRUE, st2)])
+                fr_, out_, col_ = I_.analyze(cb_)
+                rd = [x for k, x in I_.rec.facts.items() if k[0] == "push_signal" and K["ready"] in x["kinds"] and is_role(x["key"], "param")]
+                R.ob("R4.1", "consider logic | %s, every other job an Ephemeral | is not offered (the worklist pruning is not relied upon)" % A.sname(s_),
+                     not rd, detail="startup pruning walks a worklist (its completeness is not decided) and the consider logic offers an "
+                                    "invalidated Ephemeral without checking that a job that is not an Ephemeral depends on it",
+                     site=A.site(rd[0]) if rd else "")
     for t in T:
         w = t["w"]
         for f in sorted(w["frm"]):
